@@ -221,6 +221,12 @@ def run_case(case):
                                   "block1_rockit": C.short(got[1]), "block1_numpy": C.short(want)}
             if bad:
                 break
+    # ground truth for primitives that are not decision variables on the grid they are sampled on
+    if not res["violations"]:
+        try:
+            primitive_truth(case, b, view, points, res)
+        except C.RockitRaised as e:
+            res["violations"].append(C.exc_violation(ID, e, "primitive-truth"))
     # value() of non-signal expressions
     try:
         outs = [ca.MX(C.call("value", st.value, v_mx)), ca.MX(st.value(st.T)), ca.MX(st.value(st.t0))]
@@ -319,4 +325,71 @@ def numeric_layout(case, b, view, grids, prim, qnames, znames, cls, res):
                 res["violations"].append({"kind": "numeric-readback", "mech": "C07|numeric-readback|" + gname,
                                           "detail": "grid %s, %dx%d: sol.sample(e)[i,r,c] differs from e(sol.sample "
                                                     "ingredients) by %.3g" % (gtag, shp[0], shp[1], worst)})
+                return
+
+
+def primitive_truth(case, b, view, points, res):
+    """Algebraic variables away from the collocation points (polynomial through the root values of the same
+    integration interval), quadrature states (accumulated quadrature of the stage's own rule) and, for
+    shooting, states at integrator points (the scheme's sub-steps)."""
+    from ..obs import coords
+    from ..ref import model, colloc
+    spec = case["spec"]
+    m = spec["method"]
+    cls, N, M = m["cls"], m["N"], m["M"]
+    want = ("control", "integrator", "roots") if cls == "DC" else ("control", "integrator")
+    rb = C.call("sample", coords.ReadBack, b, view, want)
+    res["counters"]["primitive_truth"] = 0
+    for w in points:
+        ph = rb(w)
+        ref = model.RefModel(spec, ph)
+        errs = {}
+        sc = 1.0
+        if cls == "DC":
+            d, sch = ref.d, ref.scheme
+            ref.dc_integrals()
+            for s in ref.algs:
+                n = s["name"]
+                zr = ph["zr:" + n]
+                for idx in range(N * M):
+                    vals = [zr[idx * d + j] for j in range(d)]
+                    e0 = colloc.interp_through_roots(d, sch, vals, 0.0)
+                    errs["z-integrator"] = max(errs.get("z-integrator", 0), float(np.max(np.abs(ph["zi:" + n][idx] - e0))))
+                    if idx % M == 0:
+                        errs["z-control"] = max(errs.get("z-control", 0),
+                                                float(np.max(np.abs(ph["zc:" + n][idx // M] - e0))))
+                    sc = max(sc, float(np.max(np.abs(e0))))
+                vals = [zr[(N * M - 1) * d + j] for j in range(d)]
+                e1 = colloc.interp_through_roots(d, sch, vals, 1.0)
+                errs["z-final"] = max(errs.get("z-final", 0), float(np.max(np.abs(ph["zc:" + n][N] - e1))))
+                errs["z-final-integrator"] = max(errs.get("z-final-integrator", 0),
+                                                 float(np.max(np.abs(ph["zi:" + n][N * M] - e1))))
+            Qnode = ref._dcint[1] if hasattr(ref, "_dcint") else ref.dc_integrals()[1]
+            Qsub = ref._dc_qsub
+        else:
+            tr = ref.traj()
+            Qnode = tr["Qnode"]
+            Qsub = [tr["Qsub"][k][l] for k in range(N) for l in range(M)]
+            for s in ref.states:
+                n = s["name"]
+                for k in range(N):
+                    for l in range(M):
+                        errs["x-integrator"] = max(errs.get("x-integrator", 0), float(
+                            np.max(np.abs(ph["xi:" + n][k * M + l] - tr["subs"][k][l][n]))))
+                        sc = max(sc, float(np.max(np.abs(tr["subs"][k][l][n]))))
+        for s in ref.qstates:
+            n = s["name"]
+            for k in range(N + 1):
+                errs["q-control"] = max(errs.get("q-control", 0), float(np.max(np.abs(ph["qc:" + n][k] - Qnode[k][n]))))
+                sc = max(sc, float(np.max(np.abs(Qnode[k][n]))))
+            for idx in range(N * M):
+                errs["q-integrator"] = max(errs.get("q-integrator", 0),
+                                           float(np.max(np.abs(ph["qi:" + n][idx] - Qsub[idx][n]))))
+            errs["q-final-integrator"] = float(np.max(np.abs(ph["qi:" + n][N * M] - Qnode[N][n])))
+        res["evals"] += len(errs)
+        res["counters"]["primitive_truth"] += len(errs)
+        for k, v in errs.items():
+            if not (v <= 1e-9 * (1 + sc)):
+                res["violations"].append({"kind": "primitive-sample-wrong", "mech": "C07|primitive-sample-wrong|" + k,
+                                          "detail": "%s: sampled primitive differs from its defining value by %.3g" % (k, v)})
                 return
